@@ -132,6 +132,31 @@ func TestC16_P_WriteOrderAndFaults(t *testing.T) {
 					t.Fatalf("C16 [%s]: returned link %s but block %s of its DAG was never stored", b.desc, link, d)
 				}
 			}
+			if kind == "recursive" {
+				// the same tree imported twice through ONE link system value whose storage is swapped in between (the same
+				// importer writing a second CAR): the link returned by the second import is only good if its whole DAG was
+				// committed to the second store - whatever the importer remembers from the first run
+				first, second := NewStore(), NewStore()
+				ls := first.LinkSystem()
+				var l1, l2 datamodel.Link
+				var e1, e2 error
+				must(t, "first of two imports", func() { l1, _, e1 = builder.BuildUnixFSRecursive(fsPath, ls) })
+				ls.StorageWriteOpener, ls.StorageReadOpener = second.openWrite, second.openRead
+				must(t, "second of two imports", func() { l2, _, e2 = builder.BuildUnixFSRecursive(fsPath, ls) })
+				if e1 != nil || e2 != nil || l1 == nil || l2 == nil {
+					t.Fatalf("C16 [%s]: two imports through one link system: %v / %v", b.desc, e1, e2)
+				}
+				if _, dangling := second.Reachable(cidOf(l2)); len(dangling) > 0 {
+					t.Fatalf("C16 [%s]: the second import through the same link system (storage swapped in between) returned %s, but block %s of its DAG was never committed to the second store (%d blocks there, %d in the first)", b.desc, l2, dangling[0], second.Len(), first.Len())
+				}
+				produced2 := map[cid.Cid]bool{}
+				for c := range second.Blocks {
+					produced2[c] = true
+				}
+				if err := commitOrderOK(second, produced2); err != nil {
+					t.Fatalf("C16 [%s] second import: %v", b.desc, err)
+				}
+			}
 			levels := 1
 			if ft, err := clean.FileTree(cidOf(link), 0); err == nil && kind == "file" {
 				levels = ft.Depth()
